@@ -23,8 +23,9 @@ Definition rec_eqb (a b : rec) : bool :=
 (* an output in plz-out/gen: what it holds, xattr user.plz_hash* (memo of the path hash), xattr user.plz_build *)
 Record file := mkFile { f_content : content; f_hash : option content; f_rec : option rec }.
 
-(* .target_build_metadata_<name>: empty (created / truncated, gob not written yet) or complete;
-   the complete file carries OutputDirOuts *)
+(* .target_build_metadata_<name>: complete (it carries OutputDirOuts) or empty / undecodable. Since the fix
+   e0ea5c1 the build never produces the second kind (temp file + rename); it stays in the state space so that
+   `decide` says what plz does if it meets one. *)
 Inductive mdc := MdEmpty | MdFull (dirouts : list name).
 Record mdfile := mkMd { m_c : mdc; m_rec : option rec }.
 
@@ -71,12 +72,46 @@ Definition all_outs (t : target) (b : build) : list name :=
   add_outs (declared t) (if t_mod t then b_dirouts b else []).
 
 (* ------------------------------------------------------------------------------------------ *)
+(* fs.WriteFile (src/fs/fs.go:94): MkdirAll, CreateTemp, io.Copy, Close, Chmod, Rename *)
+
+Record wfile := mkW { w_data : str; w_mode : N }.
+Record wst := mkWst { w_dest : option wfile; w_tmp : option wfile; w_dir : bool }.
+
+Inductive wstep := WMkdir | WCreate | WWrite (chunk : str) | WClose | WChmod (m : N) | WRename.
+
+Definition wrun1 (x : wstep) (s : wst) : wst :=
+  match x with
+  | WMkdir => mkWst (w_dest s) (w_tmp s) true
+  | WCreate => mkWst (w_dest s) (Some (mkW [] 384)) (w_dir s)            (* os.CreateTemp: 0600 *)
+  | WWrite c => match w_tmp s with
+                | Some f => mkWst (w_dest s) (Some (mkW (w_data f ++ c) (w_mode f))) (w_dir s)
+                | None => s
+                end
+  | WClose => s
+  | WChmod m => match w_tmp s with
+                | Some f => mkWst (w_dest s) (Some (mkW (w_data f) m)) (w_dir s)
+                | None => s
+                end
+  | WRename => match w_tmp s with
+               | Some f => mkWst (Some f) None (w_dir s)
+               | None => s
+               end
+  end.
+
+Definition wrun (l : list wstep) (s : wst) : wst := fold_left (fun a x => wrun1 x a) l s.
+
+Definition eff_mode (m : N) : N := if N.eqb m 0 then 436 else m.          (* 0 -> 0664 *)
+
+Definition wf_steps (dir_exists : bool) (chunks : list str) (mode : N) : list wstep :=
+  (if dir_exists then [] else [WMkdir]) ++ [WCreate] ++ map WWrite chunks ++ [WClose; WChmod (eff_mode mode); WRename].
+
+(* ------------------------------------------------------------------------------------------ *)
 (* Primitive persistent steps *)
 
 Inductive step :=
 | RmMd                              (* StoreTargetMetadata: fs.RemoveAll(md)              incrementality.go:393 *)
-| CreateMd                          (* os.Create(md)  O_CREAT|O_TRUNC                      :399 *)
-| WriteMd (dirouts : list name)     (* gob Encode + Close                                  :407 *)
+| MdTmp (w : wstep)                 (* fs.WriteFile(&buf, md, 0644): its steps on the TEMPORARY file       :403 *)
+| MvMd (dirouts : list name)        (*   ... and its final rename onto the metadata file (gob with OutputDirOuts) *)
 | DamageOut (n : name)              (* moveOutput: fs.RemoveAll(realOutput) under way (directories)  build_step.go:755 *)
 | RmOut (n : name)                  (*             ... finished *)
 | MvOut (n : name) (c : content)    (* os.Rename(tmpOutput, realOutput)                    :770 *)
@@ -89,14 +124,8 @@ Inductive step :=
 Definition run1 (x : step) (s : st) : st :=
   match x with
   | RmMd => mkSt None (s_out s) (s_fb s)
-  | CreateMd =>
-      (* O_TRUNC on an existing inode keeps its xattrs *)
-      mkSt (Some (mkMd MdEmpty (match s_md s with Some m => m_rec m | None => None end))) (s_out s) (s_fb s)
-  | WriteMd d =>
-      match s_md s with
-      | Some m => mkSt (Some (mkMd (MdFull d) (m_rec m))) (s_out s) (s_fb s)
-      | None => s
-      end
+  | MdTmp _ => s                      (* the temporary file (.target_build_metadata_<name><random>) is read by nobody *)
+  | MvMd d => mkSt (Some (mkMd (MdFull d) None)) (s_out s) (s_fb s)      (* a new inode: complete content, no xattr *)
   | DamageOut n =>
       match s_out s n with
       | Some f => mkSt (s_md s) (upd (s_out s) n (Some (mkFile junk (f_hash f) (f_rec f)))) (s_fb s)
@@ -148,10 +177,16 @@ Definition rec_steps (b : build) (outs : list name) : list step :=
   | _ => map (fun n => SetRec n (b_cur b)) outs ++ [SetMdRec (b_cur b)]
   end.
 
+(* StoreTargetMetadata (incrementality.go:391): RemoveAll, then fs.WriteFile of the encoded metadata. The steps are
+   WriteFile's own step list (one chunk, mode 0644, directory present), its rename being the step that makes the
+   metadata file appear; the gob bytes are abstracted to the empty chunk. *)
+Definition md_steps (d : list name) : list step :=
+  RmMd :: map MdTmp (removelast (wf_steps true [[]] 420)) ++ [MvMd d].
+
 (* buildTarget after the command has run: StoreTargetMetadata; moveOutputs; calculateAndCheckRuleHash *)
 Definition build_steps (t : target) (b : build) (s : st) : list step :=
   let outs := all_outs t b in
-  let pre := [RmMd; CreateMd; WriteMd (if t_mod t then b_dirouts b else [])] in
+  let pre := md_steps (if t_mod t then b_dirouts b else []) in
   pre
   ++ moves b outs (run pre s)
   ++ map SetHash outs
@@ -269,51 +304,10 @@ Definition step_event (t : target) (b : build) (s : st) (e : event) : st :=
 Definition after (t : target) (b : build) (evs : list event) (s : st) : st :=
   fold_left (step_event t b) evs s.
 
-(* the known defect class: a build that starts although the record the pre-build check reads is current
-   (forced rebuild, or a rebuild decided by the post-build check) rewrites the metadata file in place *)
+(* the record the pre-build check reads is the current one. A build can still start in such a state (forced
+   rebuild, or a rebuild decided by the post-build check); before the fix e0ea5c1 a kill of such a build could
+   leave an empty metadata file next to these trusted outputs. *)
 Definition in_window (t : target) (b : build) (s : st) : bool := rec_matches false t b (declared t) s.
-
-Fixpoint after_guarded (t : target) (b : build) (evs : list event) (s : st) : option st :=
-  match evs with
-  | [] => Some s
-  | e :: r =>
-      if in_window t b s && decision_eqb (decide t (with_force b (fst e)) s) Rebuild then None
-      else after_guarded t b r (step_event t b s e)
-  end.
-
-(* ------------------------------------------------------------------------------------------ *)
-(* fs.WriteFile (src/fs/fs.go:94): MkdirAll, CreateTemp, io.Copy, Close, Chmod, Rename *)
-
-Record wfile := mkW { w_data : str; w_mode : N }.
-Record wst := mkWst { w_dest : option wfile; w_tmp : option wfile; w_dir : bool }.
-
-Inductive wstep := WMkdir | WCreate | WWrite (chunk : str) | WClose | WChmod (m : N) | WRename.
-
-Definition wrun1 (x : wstep) (s : wst) : wst :=
-  match x with
-  | WMkdir => mkWst (w_dest s) (w_tmp s) true
-  | WCreate => mkWst (w_dest s) (Some (mkW [] 384)) (w_dir s)            (* os.CreateTemp: 0600 *)
-  | WWrite c => match w_tmp s with
-                | Some f => mkWst (w_dest s) (Some (mkW (w_data f ++ c) (w_mode f))) (w_dir s)
-                | None => s
-                end
-  | WClose => s
-  | WChmod m => match w_tmp s with
-                | Some f => mkWst (w_dest s) (Some (mkW (w_data f) m)) (w_dir s)
-                | None => s
-                end
-  | WRename => match w_tmp s with
-               | Some f => mkWst (Some f) None (w_dir s)
-               | None => s
-               end
-  end.
-
-Definition wrun (l : list wstep) (s : wst) : wst := fold_left (fun a x => wrun1 x a) l s.
-
-Definition eff_mode (m : N) : N := if N.eqb m 0 then 436 else m.          (* 0 -> 0664 *)
-
-Definition wf_steps (dir_exists : bool) (chunks : list str) (mode : N) : list wstep :=
-  (if dir_exists then [] else [WMkdir]) ++ [WCreate] ++ map WWrite chunks ++ [WClose; WChmod (eff_mode mode); WRename].
 
 (* ------------------------------------------------------------------------------------------ *)
 (* Correspondence cases *)
@@ -327,10 +321,19 @@ Definition of_list (l : list (name * file)) : name -> option file :=
 Record obs_st := mkObs { o_md : option mdfile; o_outs : list (name * file); o_fb : option fb }.
 Definition st_of (o : obs_st) : st := mkSt (o_md o) (of_list (o_outs o)) (o_fb o).
 
+Definition wstep_eqb (a b : wstep) : bool :=
+  match a, b with
+  | WMkdir, WMkdir | WCreate, WCreate | WClose, WClose | WRename, WRename => true
+  | WWrite c, WWrite d => str_eqb c d
+  | WChmod m, WChmod n => N.eqb m n
+  | _, _ => false
+  end.
+
 Definition step_eqb (a b : step) : bool :=
   match a, b with
-  | RmMd, RmMd | CreateMd, CreateMd | FbTrunc, FbTrunc => true
-  | WriteMd d, WriteMd e => list_eqb str_eqb d e
+  | RmMd, RmMd | FbTrunc, FbTrunc => true
+  | MdTmp w, MdTmp v => wstep_eqb w v
+  | MvMd d, MvMd e => list_eqb str_eqb d e
   | DamageOut n, DamageOut m | RmOut n, RmOut m | SetHash n, SetHash m => str_eqb n m
   | MvOut n c, MvOut m d => str_eqb n m && N.eqb c d
   | SetRec n r, SetRec m q => str_eqb n m && rec_eqb r q
